@@ -6,6 +6,6 @@ wt=/tmp/alt-$$
 git -C /repo worktree add -q --detach $wt HEAD || exit 2
 if ! git -C $wt apply "$diff" 2>/dev/null; then echo "PATCH-DOES-NOT-APPLY $diff"; git -C /repo worktree remove --force $wt; exit 3; fi
 for p in "$@"; do
-  (cd /verif && VERIF_REPO=$wt ./check $p --tier ${TIER:-quick} 2>&1 | grep -E "VIOLATION|KNOWN|TOOL-ERROR|\[done\]" | head -${HEAD:-3})
+  (cd ${VERIF_ROOT:-/verif} && VERIF_REPO=$wt ./check $p --tier ${TIER:-quick} 2>&1 | grep -E "VIOLATION|KNOWN|TOOL-ERROR|\[done\]" | head -${HEAD:-3})
 done
 git -C /repo worktree remove --force $wt
